@@ -157,6 +157,28 @@ func genLife(seed int64, allow map[string]bool) *Scenario {
 	if r.Intn(12) == 0 {
 		// the blind structure is not set yet when the first hand is due: tableGameOpen sleeps and retries with the
 		// engine lock held; what lands during the sleep (no lock needed) decides what the retry may do
+		if r.Intn(3) == 0 {
+			// ... or the seat manager cannot place two players yet: the second player has bought in but sits in (and the
+			// first adds chips) while the open attempt sleeps -- both calls take no engine lock
+			b.sc.Steps = nil
+			b.ids = nil
+			b.nextID = 0
+			p1, p2 := b.newID(), b.newID()
+			b.add(Op{Op: "reserve", ID: p1, Seat: -1, Chips: 20 + b.chips()})
+			b.add(Op{Op: "join", ID: p1})
+			b.add(Op{Op: "reserve", ID: p2, Seat: -1, Chips: 20 + b.chips()})
+			b.add(Op{Op: "start"})
+			b.add(Op{Op: "setup", IDs: []string{p1, p2}})
+			hp := b.plan()
+			ops := []Op{{Op: "redeem", ID: p1, Chips: 1 + b.chips()}, {Op: "join", ID: p2}}
+			if r.Intn(2) == 0 {
+				ops = []Op{{Op: "join", ID: p2}, {Op: "redeem", ID: p2, Chips: 1 + b.chips()}, {Op: "blind", Blind: []int64{2, 0, 0, 2, 4}}}
+			}
+			hp.Inj = []Inj{{At: "g:open.retry", Ops: ops}}
+			b.hand(hp)
+			b.hand(b.plan())
+			return b.sc
+		}
 		b.sc.Blind = []int64{0, 0, 0, 0, 0}
 		set := Op{Op: "blind", Blind: []int64{1, 0, 0, 1, 2}}
 		var ops []Op
